@@ -89,10 +89,19 @@ EVENTS = [("single", "a"), ("single", "b"), ("fast", "a"), ("multi_furuno", "a")
           ("claim1", "b"), ("unknown_pgn", "a")]
 
 
-def feed(dec, w, kind, who, dst=255, prio=3):
+def feed(dec, w, kind, who, dst=255, prio=3, via=None):
+    """via=None: the shared decode path; via="tcp": the same frame as a 13-byte EByte packet through the public decode_tcp"""
     outs = []
     for pgn, can in frames_of(w, kind):
-        outs.append(dec._decode(pgn, prio, w.src(who), dst, TS, can, b""))
+        if via == "tcp":
+            wire = list(can)[::-1]
+            pf = (pgn >> 8) & 0xFF
+            ident = (prio << 26) | (((pgn | dst) if pf < 240 else pgn) << 8)
+            src = w.src(who)
+            idb = [(ident >> 24) & 0xFF, (ident >> 16) & 0xFF, (ident >> 8) & 0xFF, src]
+            outs.append(dec.decode_tcp(SymBytes([0x80 | len(wire)] + idb + wire + [0] * (8 - len(wire)))))
+        else:
+            outs.append(dec._decode(pgn, prio, w.src(who), dst, TS, can, b""))
     return outs
 
 
